@@ -8,6 +8,8 @@ From FT Require Import Base.Dict Model.Edit Model.EditExec Proofs.EditInv Proofs
 From FT Require Gen.History_gen Proofs.HistoryGeneric Proofs.HistoryTie Proofs.HistoryGen.
 From FT Require Proofs.EditInverse.
 From FT Require Proofs.EditBook Proofs.EditSessions Proofs.EditSessionsFull Proofs.EditSessionsAll.
+From FT Require Model.Toggle Proofs.EditInit.
+From FT Require Proofs.CoreTieBundle.
 Import ListNotations.
 
 Module G := FT.Gen.History_gen.
@@ -141,6 +143,31 @@ Theorem C02_sessions_undo_redo : forall st0 ops,
      (snd (A.t_redo state t) = false <-> (length (A.tl state t) <= S (A.c state t))%nat)).
 Proof. exact EditSessionsAll.session_all_undo_redo. Qed.
 
+(* (8) ... from construction: for every valid raw solution (EditInit.raw_ok) the timeline law holds for every
+   session over the whole interface from the constructed state, with no assumption on that state. *)
+Theorem C02_sessions_from_construction : forall r0 posk ctrk clin extra ops,
+  EditInit.raw_ok r0 posk ctrk clin ->
+  (forall k, In k extra -> In k (Toggle.available r0)) ->
+  EditSessionsAll.pre_along_all (EditInit.construct r0 ctrk clin extra) ops ->
+  forall dS,
+  let st0 := EditInit.construct r0 ctrk clin extra in
+  let t := EditSessionsFull.tl_run_full st0 {| A.tl := [st0]; A.c := 0 |} ops in
+  (A.c state t < length (A.tl state t))%nat /\
+  EditInverse.obs_eq (run st0 ops) (nth (A.c state t) (A.tl state t) dS) /\
+  Forall WF (A.tl state t) /\
+  (exists ext, A.tl state t = st0 :: ext).
+Proof. exact EditInit.construct_session_timeline. Qed.
+
+(* ---- one level further down: the queries (get_track_neighbors with its in-place sort, has_track_id_at_time,
+        next track / lineage id), the node-id counter, Tracks.undo / redo and the seven basic actions with their
+        inverses (__init__, _apply, the annotator notifications, the track-annotator bookkeeping and relabel
+        walk inlined) of the model equal the code translated on every run from data_model/solution_tracks.py,
+        data_model/tracks.py, annotators/_track_annotator.py and actions/*.py (Gen/Core_gen.v; translator
+        harness/translate_core.py, fail closed).  The statement is Proofs/CoreTieBundle.v: core_tie_statement.
+        Not translated (hand models): the regionprops / edge annotators' update, the bulk compute paths. ---- *)
+Theorem C02_core_is_generated : FT.Proofs.CoreTieBundle.core_tie_statement.
+Proof. exact FT.Proofs.CoreTieBundle.core_tie. Qed.
+
 Example C02_nonvacuous :
   let inv := fun (s : Z) (a : Z) => ((s - a)%Z, (- a)%Z) in
   let ops := [A.HEdit Z Z 5%Z 5%Z; A.HEdit Z Z 2%Z 7%Z; A.HUndo Z Z; A.HUndo Z Z; A.HEdit Z Z 1%Z 1%Z;
@@ -159,3 +186,5 @@ Print Assumptions C02_edit_machine_uses_generated.
 Print Assumptions C02_edit_machine_timeline.
 Print Assumptions C02_sessions_timeline.
 Print Assumptions C02_sessions_undo_redo.
+Print Assumptions C02_sessions_from_construction.
+Print Assumptions C02_core_is_generated.
